@@ -1,8 +1,9 @@
 (** C13 — a virtual signal behaves like its body at every index, in every visit order.
     Statements only; proofs in proofs/VirtualProofs.v.
     Shape: an invariant over every history of reads.  [cache_ok f vs] says every cached value is the
-    value [f] gives to the time point it is stored under; [f ts] is "the body's value at time point
-    ts" — that the body has such a value (depends only on trace signals) is the property's premise
+    value [f] gives to the index it is stored under (the cache key is the trace index: two samples may carry
+    the same timestamp); [f i] is "the body's value at index i" — that the body has such a value (depends only
+    on trace signals) is the property's premise
     and appears as the hypothesis on [eval_args ev body].  One read is sound (T-sound) and keeps the
     invariant (T-keep) wherever the trace index stands, so by induction no sequence of reads, in
     any order, is ever served a value computed for another time point; sample-at empties every
@@ -18,14 +19,14 @@ Local Open Scope Z_scope.
 Section Reads.
   Variable ev : val -> M val.
 
-  Theorem hit_returns_cached_for_this_timestamp : forall tid name st t vs ts v,
-    vs_at st tid name = Some (t, vs) -> znth (tr_ts t) (tr_index t) = Some ts ->
+  Theorem hit_returns_cached_for_this_index : forall tid name st t vs ts v,
+    vs_at st tid name = Some (t, vs) -> tr_index t = ts ->
     cache_find ts (vs_cache vs) = Some v ->
     virtual_value ev tid name st = Ok v st.
   Proof. exact (virtual_hit ev). Qed.
 
   Theorem miss_evaluates_body_here : forall tid name st t vs ts vals st2 v t2 vs2,
-    vs_at st tid name = Some (t, vs) -> znth (tr_ts t) (tr_index t) = Some ts ->
+    vs_at st tid name = Some (t, vs) -> tr_index t = ts ->
     cache_find ts (vs_cache vs) = None ->
     eval_args ev (vs_body vs) st = Ok vals st2 -> last_opt vals = Some v ->
     vs_at st2 tid name = Some (t2, vs2) ->
@@ -33,7 +34,7 @@ Section Reads.
   Proof. exact (virtual_miss ev). Qed.
 
   Theorem body_error_is_reported : forall tid name st t vs ts e st2,
-    vs_at st tid name = Some (t, vs) -> znth (tr_ts t) (tr_index t) = Some ts ->
+    vs_at st tid name = Some (t, vs) -> tr_index t = ts ->
     cache_find ts (vs_cache vs) = None ->
     eval_args ev (vs_body vs) st = Er e st2 ->
     virtual_value ev tid name st = Er e st2.
@@ -41,7 +42,7 @@ Section Reads.
 
   (** T-sound *)
   Theorem read_serves_value_of_current_time_point : forall (f : Z -> val) tid name st t vs ts v st',
-    vs_at st tid name = Some (t, vs) -> znth (tr_ts t) (tr_index t) = Some ts ->
+    vs_at st tid name = Some (t, vs) -> tr_index t = ts ->
     cache_ok f vs ->
     (forall vals st2, eval_args ev (vs_body vs) st = Ok vals st2 -> last_opt vals = Some (f ts)) ->
     virtual_value ev tid name st = Ok v st' -> v = f ts.
@@ -49,7 +50,7 @@ Section Reads.
 
   (** T-keep *)
   Theorem read_keeps_cache_sound : forall (f : Z -> val) tid name st t vs ts v st',
-    vs_at st tid name = Some (t, vs) -> znth (tr_ts t) (tr_index t) = Some ts ->
+    vs_at st tid name = Some (t, vs) -> tr_index t = ts ->
     cache_ok f vs ->
     (forall vals st2, eval_args ev (vs_body vs) st = Ok vals st2 -> last_opt vals = Some (f ts)) ->
     (forall vals st2 t2 vs2, eval_args ev (vs_body vs) st = Ok vals st2 -> vs_at st2 tid name = Some (t2, vs2) ->
@@ -58,8 +59,8 @@ Section Reads.
     forall t' vs', vs_at st' tid name = Some (t', vs') -> cache_ok f vs'.
   Proof. exact (virtual_value_keeps_cache_ok ev). Qed.
 
-  Theorem value_cached_under_current_timestamp : forall tid name st t vs ts vals st2 v t2 vs2,
-    vs_at st tid name = Some (t, vs) -> znth (tr_ts t) (tr_index t) = Some ts ->
+  Theorem value_cached_under_current_index : forall tid name st t vs ts vals st2 v t2 vs2,
+    vs_at st tid name = Some (t, vs) -> tr_index t = ts ->
     cache_find ts (vs_cache vs) = None ->
     eval_args ev (vs_body vs) st = Ok vals st2 -> last_opt vals = Some v ->
     vs_at st2 tid name = Some (t2, vs2) -> tr_tid t2 = tid ->
@@ -74,12 +75,12 @@ Section Reads.
     signal_value_m ev name scope st = virtual_value ev (tr_tid t) name st.
   Proof. exact (virtual_signal_dispatch ev). Qed.
 End Reads.
-Print Assumptions hit_returns_cached_for_this_timestamp.
+Print Assumptions hit_returns_cached_for_this_index.
 Print Assumptions miss_evaluates_body_here.
 Print Assumptions body_error_is_reported.
 Print Assumptions read_serves_value_of_current_time_point.
 Print Assumptions read_keeps_cache_sound.
-Print Assumptions value_cached_under_current_timestamp.
+Print Assumptions value_cached_under_current_index.
 Print Assumptions reading_the_name_evaluates_the_virtual_signal.
 
 (** non-vacuity: a sound cache with two entries, hit on the second *)
@@ -142,7 +143,7 @@ Print Assumptions defined_signal_is_listed.
 
 (** * any visit order (proofs/VirtualOrder.v)
     [vstate j c]: the interpreter with the trace at index j and the signal's cache holding c (nothing else
-    differs).  Premises, as in the property: timestamps are distinct; the body can be evaluated at every index,
+    differs).  Premises, as in the property: the body can be evaluated at every index,
     leaves the state as it was and does not depend on what the cache holds.  Then reading the signal at ANY
     sequence of indices — any order, with repeats, the trace moved between reads by whatever means — yields at
     each index the body's value at that index, and the cache stays sound. *)
@@ -154,22 +155,19 @@ Section AnyOrder.
   Variable t0 : trace.
   Variable body : list val.
   Hypothesis Htid : tr_tid t0 = tid.
-  Variable ts_of : Z -> Z.
-  Hypothesis Hts : forall j, in_range t0 j -> znth (tr_ts t0) j = Some (ts_of j).
-  Hypothesis Hinj : forall j j', in_range t0 j -> in_range t0 j' -> ts_of j = ts_of j' -> j = j'.
   Variable value_at : Z -> val.
   Hypothesis Hbody : forall j c, in_range t0 j ->
     exists vals, eval_args ev body (vstate tid name st0 t0 body j c) = Ok vals (vstate tid name st0 t0 body j c)
                  /\ last_opt vals = Some (value_at j).
 
-  Theorem one_read_at_any_index : forall j c, in_range t0 j -> sound t0 ts_of value_at c ->
+  Theorem one_read_at_any_index : forall j c, in_range t0 j -> sound t0 value_at c ->
     exists c', virtual_value ev tid name (vstate tid name st0 t0 body j c) = Ok (value_at j) (vstate tid name st0 t0 body j c')
-               /\ sound t0 ts_of value_at c'.
-  Proof. exact (read_at_any_index ev tid name st0 t0 body Htid ts_of Hts Hinj value_at Hbody). Qed.
+               /\ sound t0 value_at c'.
+  Proof. exact (read_at_any_index ev tid name st0 t0 body Htid value_at Hbody). Qed.
 
-  Theorem reads_in_any_order_give_the_body_values : forall js c, Forall (in_range t0) js -> sound t0 ts_of value_at c ->
-    exists c2, reads ev tid name st0 t0 body js c (map value_at js) c2 /\ sound t0 ts_of value_at c2.
-  Proof. exact (reads_in_any_order ev tid name st0 t0 body Htid ts_of Hts Hinj value_at Hbody). Qed.
+  Theorem reads_in_any_order_give_the_body_values : forall js c, Forall (in_range t0) js -> sound t0 value_at c ->
+    exists c2, reads ev tid name st0 t0 body js c (map value_at js) c2 /\ sound t0 value_at c2.
+  Proof. exact (reads_in_any_order ev tid name st0 t0 body Htid value_at Hbody). Qed.
 End AnyOrder.
 Print Assumptions one_read_at_any_index.
 Print Assumptions reads_in_any_order_give_the_body_values.
@@ -226,14 +224,11 @@ Theorem reads_of_a_read_only_body_in_any_order : forall lf f tid name st0 t0 bod
   tr_tid t0 = tid -> c_ntraces (st_cont st0) = 1 ->
   forallb VirtFrame.is_rov body = true ->
   Forall (VirtFrame.clean (vstate tid name st0 t0 body 0 [])) (flat_map VirtFrame.syms body) ->
-  forall ts_of : Z -> Z,
-  (forall j, in_range t0 j -> znth (tr_ts t0) j = Some (ts_of j)) ->
-  (forall j j', in_range t0 j -> in_range t0 j' -> ts_of j = ts_of j' -> j = j') ->
   forall value_at : Z -> val,
   (forall j, in_range t0 j -> exists vals s',
      eval_args (eval lf f) body (VirtFrame.strip (vstate tid name st0 t0 body j [])) = Ok vals s' /\ last_opt vals = Some (value_at j)) ->
-  forall js c, Forall (in_range t0) js -> sound t0 ts_of value_at c ->
-  exists c2, reads (eval lf f) tid name st0 t0 body js c (map value_at js) c2 /\ sound t0 ts_of value_at c2.
+  forall js c, Forall (in_range t0) js -> sound t0 value_at c ->
+  exists c2, reads (eval lf f) tid name st0 t0 body js c (map value_at js) c2 /\ sound t0 value_at c2.
 Proof. exact VirtFrame.reads_of_a_read_only_body. Qed.
 Print Assumptions reads_of_a_read_only_body_in_any_order.
 
